@@ -1,6 +1,8 @@
 """C14 - demodulator LLRs are the posterior log-ratios of the modulator's constellation (tables + formula shape)."""
 from fractions import Fraction
 
+import re
+
 from ..extract import AnalysisError
 from ..facts import walk, strip, callee, calls_to
 from ..symx import (SymEval, Poly, Rat, Unsupported, app, var, num, single_atom, atom_fn, atom_args, split_signed)
@@ -112,7 +114,8 @@ def run(ck, F, tier):
 
     # ---- M2: demodulator partition --------------------------------------------------
     db = F.body(MOD + "Psk8Demodulator::demodulate_symbol")
-    e3 = SymEval(F, mode="real")
+    # private helpers of the module (e.g. a "max* of four metrics" function) are expanded; the two formulas checked by M3 stay symbolic
+    e3 = SymEval(F, mode="real", inline=lambda p: F.private_helper(p, MOD, keep=re.escape(MOD) + r"(maxstar|dot)"))
     env3 = {}
     for p, nm in zip(db.params, ("self", "symbol")):
         e3.bind(p, var(nm), env3)
@@ -228,16 +231,9 @@ def run(ck, F, tier):
         okb = Rat(s0 - s1, var("sigma") * var("sigma")) == sc
     ck.inst("M3", "bpsk:scale", okb, b.span, "BPSK scale = %r ; required (s0 - s1)/sigma^2 with s0=%r, s1=%r the modulator's symbols" % (sc, s0, s1))
     bd = F.body("<%sBpskDemodulator as %sDemodulator>::demodulate" % (MOD, MOD))
-    tr3 = Tracer(F, "NONE", mode="real")
-    en = {}
-    for pp, nm in zip(bd.params, ("self", "symbols")):
-        tr3.bind(pp, var(nm), en)
-    col = calls_to(bd.value, r"std::iter::Iterator::collect")
-    ok = False
-    if len(col) == 1:
-        d = tr3.iter_desc(col[0]["recv"], en)
-        if d[0] == "map" and d[1] == ("elems", var("symbols")):
-            ok = tr3.apply(d[2], [var("x")]) == var("self.scale") * var("x")
+    from ..idioms import positional_map
+    fx = positional_map(F, bd, ("self", "symbols"), "symbols", mode="real")
+    ok = fx is not None and fx == var("self.scale") * var("x")
     ck.inst("M3", "bpsk:demodulate", ok, bd.span, "LLR_i = scale * r_i elementwise, in order")
     for name in ("Psk8Demodulator", "BpskDemodulator"):
         b, v = ev_fn("<%s%s as %sDemodulator>::from_noise_sigma" % (MOD, name, MOD), ("sigma",))
